@@ -175,6 +175,9 @@ Listing ==
          expected == Largest(keep, due[d] \cup onDisk[d])
      IN
      IF T.freq0 /\ (Ev.exists \/ fin # {}) THEN Reject("C12", "frequency 0: a checkpoint directory was created or written")
+     \* the scenario's only use of the second directory is restore(..., new_checkpoint_dir=B, checkpoint_frequency=0)
+     ELSE IF T.bunused /\ d = 2 /\ (Ev.exists \/ fin # {})
+       THEN Reject("C12", "frequency 0: restore with a new directory and checkpoint_frequency=0 created or wrote that directory")
      ELSE IF ~(fin \subseteq (due[d] \cup onDisk[d]))
        THEN Reject("C12", "listing: a committed step that is not a save point of the run")
      ELSE IF Ev.quiescent /\ d = dir /\ freq > 0 /\ fin # expected /\ ~restoredOlder
